@@ -31,6 +31,24 @@ FILES = ['pyglove/core/geno/base.py', 'pyglove/core/geno/categorical.py',
 G = 'pyglove.core.geno.'
 
 
+def _nested_role(scopes, val):
+  """Role of the nested helper that `val` calls (by what the helper does, not
+  by its name): 'index-helper' resolves a user value to a candidate index
+  through <spec>.candidate_index(...); 'input-reader' takes the next item of the
+  caller's input (next(...))."""
+  if not (isinstance(val, ast.Call) and isinstance(val.func, ast.Name)):
+    return None
+  for sc in scopes:
+    for n in ast.walk(sc):
+      if isinstance(n, ast.FunctionDef) and n.name == val.func.id and n is not sc:
+        calls = [c for c in ast.walk(n) if isinstance(c, ast.Call)]
+        if any(isinstance(c.func, ast.Attribute) and c.func.attr == 'candidate_index' for c in calls):
+          return 'index-helper'
+        if any(isinstance(c.func, ast.Name) and c.func.id == 'next' for c in calls):
+          return 'input-reader'
+  return None
+
+
 def _is_input_index(func, idx_expr):
   """Classify a candidates[...] index: 'input' / 'helper:<name>' / 'internal'."""
   if isinstance(idx_expr, ast.Attribute) and idx_expr.attr == 'value':
@@ -47,9 +65,10 @@ def _is_input_index(func, idx_expr):
         if val is None:
           continue
         txt = A.unparse(val, 300)
-        if isinstance(val, ast.Call) and (A.call_name(val) or '').startswith('_choice_index'):
+        role = _nested_role(scopes, val)
+        if role == 'index-helper':
           kinds.add('helper:_choice_index')
-        elif '_next_decision(' in txt or 'generator_fn(' in txt:
+        elif role == 'input-reader' or 'generator_fn(' in txt:
           kinds.add('input')
         elif isinstance(val, ast.Attribute) and val.attr == 'value':
           kinds.add('input')
@@ -170,7 +189,11 @@ def rule_a(ctx):
   # helper: _choice_index has both sides
   f = idx.func(G + 'base.DNA.from_dict.<locals>._choice_index')
   g = C.cfg_of(f.node)
-  lower, upper = _bound_tests(g, 'index')
+  ret_names = {r.value.id for r in ast.walk(f.node) if isinstance(r, ast.Return) and isinstance(r.value, ast.Name)}
+  lower = upper = None
+  for nm in sorted(ret_names):
+    lo, up = _bound_tests(g, nm)
+    lower, upper = lower or lo, upper or up
   ctx.ob('C11.a', f.fq, bool(lower) and bool(upper),
          'the index helper rejects both negative and too-large indices', f.loc,
          'one side of the range check is missing')
@@ -304,15 +327,20 @@ def rule_d(ctx):
          'spec, never the top-level arity or candidate list', f.loc,
          f'recurrence reads self.{sorted(extra)}: the value at level k depends on the top-level spec')
   outer = idx.func(G + 'categorical.Choices.space_size')
-  calls = [c for c in A.calls_in(outer.node) if A.call_name(c) == '_space_size']
+  calls = [c for c in A.calls_in(outer.node) if A.call_name(c) == f.node.name]
   ok = any(len(c.args) == 2 and A.unparse(c.args[1]) == 'self.num_choices' for c in calls)
   ctx.ob('C11.d', outer.fq + '#initial-call', ok,
          'the recurrence is started with k = self.num_choices', outer.loc,
          'initial call changed')
   # recursive calls decrease k / shrink s
-  rec = [c for c in A.calls_in(f.node) if A.call_name(c) == '_space_size']
+  rec = [c for c in A.calls_in(f.node) if A.call_name(c) == f.node.name]
+  p0, p1 = A.param_names(f.node)[:2]
+  def k_ok(e):
+    t = A.unparse(e)
+    return t in (p1, '1', f'{p1} - 1') or (isinstance(e, ast.BinOp) and isinstance(e.op, ast.Sub)
+                                          and A.unparse(e.left) == p1 and isinstance(e.right, ast.Name))
   bad = [A.unparse(c) for c in rec if len(c.args) != 2 or not (
-      A.unparse(c.args[0]) in ('s[1:]', 's') and A.unparse(c.args[1]) in ('k - 1', 'k', 'k - i', '1'))]
+      A.unparse(c.args[0]) in (f'{p0}[1:]', p0) and k_ok(c.args[1]))]
   ctx.ob('C11.d', f.fq + '#recursive-calls', not bad,
          'every recursive call is on (s[1:] | s, k-1 | k | k-i | 1)', f.loc,
          f'unexpected recursive call shape: {bad}')
